@@ -152,6 +152,7 @@ def reduction_data(draw, min_groups=2, max_groups=3, pairs="free", moments=None)
         "sf_kind": draw(st.sampled_from(["list", "ndarray", "series"])),
         "index": draw(st.sampled_from(["default", "default", "offset"])),
         "tie": draw(st.integers(0, 1)),
+        "swn": draw(st.booleans()),  # learner takes its weights under another keyword (sample_weight_name)
     }
 
 
